@@ -160,8 +160,27 @@ def direction_A(ctx, sts, mode):
     core.parallel(ctx, work, sts)
 
 
+WORDS = ["disk", "win", "C", "drive", "0", "42", "7", "copy", "(2)", "dïsk", "✓", "😀", "s001", "RW", "FLAT", "#", "=", "'", "a.b", "x"]
+SEPS = [" ", " ", '" ', ' "', '"', '" "', "-", " - ", "  ", "_", "\t"]
+
+
+def random_name(rng, i):
+    """A file name drawn from a small grammar: words (incl. numbers, descriptor keywords, unicode) joined by spaces, quotes
+    and dashes, optionally starting / ending with a quote; unique per extent index."""
+    k = rng.randrange(1, 5)
+    parts = [rng.choice(['"', "", "", ""])]
+    for j in range(k):
+        if j:
+            parts.append(rng.choice(SEPS))
+        parts.append(rng.choice(WORDS))
+    parts.append(rng.choice(["", "", '"', ' "']))
+    parts.append(rng.choice([f"-e{i}.vmdk", f" e{i}.vmdk", f'" {i}', f'" e{i} 0', f".{i}\"", f' {i} "']))
+    return "".join(parts)
+
+
 def make_trace(tid, rng, nops=30):
-    """B: a random VMDK extent list at real geometry opened through VMDK([handles...]); trace for TraceDisk (extents source)."""
+    """B: a random VMDK extent list at real geometry opened through VMDK([handles...]) or through a descriptor file naming
+    the extents by randomly generated file names; trace for TraceDisk (extents source)."""
     from dissect.hypervisor.disk.vmdk import VMDK
 
     grain = rng.choice([8, 16, 128])
@@ -169,9 +188,14 @@ def make_trace(tid, rng, nops=30):
     k = rng.randrange(2, 6)
     vfs, exts, bases = [], [], []
     start = 0
+    via = rng.choice(["handles", "descriptor"])
+    lines, names = [], []
     for i in range(k):
         kind = rng.choice(["flat", "hosted", "hosted", "se", "cowd"])
         n = rng.randrange(1, 30)
+        names.append(random_name(rng, i))
+        etype = {"flat": rng.choice(["FLAT", "VMFS"]), "hosted": "SPARSE", "se": "SESPARSE", "cowd": "VMFSSPARSE"}[kind]
+        lines.append(f'{rng.choice(["RW", "RDONLY", "NOACCESS"])} {n * grain} {etype} "{names[-1]}"{" 0" if etype == "FLAT" else ""}')
         if kind == "flat":
             vf = VirtualFile(n * gbytes, [(0, n * gbytes, "pat", i)], fid=i)
             exts.append({"fmt": "flat", "start": start, "n": n, "img": {}})
@@ -203,18 +227,40 @@ def make_trace(tid, rng, nops=30):
         start += n
     size_b = start * gbytes
 
+    wdir = None
+    if via == "descriptor":
+        wdir = tempfile.mkdtemp(prefix="verif-c10b-")
+        for vf, nm in zip(vfs, names):
+            vf.materialise(os.path.join(wdir, nm))
+        ctype = rng.choice(["twoGbMaxExtentSparse", "vmfs", "vmfsSparse", "seSparse", "monolithicFlat", "custom"])
+        with open(os.path.join(wdir, "disk.vmdk"), "w", encoding="utf-8") as f:
+            f.write(enc_vmdk.descriptor_text(lines, create_type=ctype))
+
     def opener():
+        if via == "descriptor":
+            return VMDK(Path(wdir) / "disk.vmdk")
         for vf in vfs:
             vf.seek(0)
         return VMDK(list(vfs))
 
-    s, fresh = opener(), None
-    # the probe needs its own handles: rebuild is expensive, so reuse the same files through a second VMDK object
-    fresh = opener()
-    rec = record.Recorder(s, size_b, probe=fresh.readoffset)
-    record.random_ops(rec, rng, size_b, nops, unit=gbytes, big=min(20 * gbytes, 1 << 20), sectors_fn=s.read_sectors, ssize=512)
     geo = {"cellB": gbytes, "cb": 1, "stride": gbytes, "bases": bases, "pbase": 0}
-    return {"tid": tid, "fmt": "extents", "exts": exts, "sizeB": size_b, "sector": 512, "geo": geo, "events": rec.events}
+    out = {"tid": tid, "fmt": "extents", "exts": exts, "sizeB": size_b, "sector": 512, "geo": geo, "via": via,
+           "lines": lines if via == "descriptor" else []}
+    try:
+        try:
+            s = opener()
+            # the probe needs its own handles: rebuild is expensive, so reuse the same files through a second VMDK object
+            fresh = opener()
+        except Exception as e:  # noqa: BLE001
+            # opening a well-formed extent list must succeed (reported as a violation by diskprop.traces)
+            raise RuntimeError(f"VMDK open via {via} raised {e!r}; extent lines: {lines}") from e
+        rec = record.Recorder(s, size_b, probe=fresh.readoffset)
+        record.random_ops(rec, rng, size_b, nops, unit=gbytes, big=min(20 * gbytes, 1 << 20), sectors_fn=s.read_sectors, ssize=512)
+        out["events"] = rec.events
+        return out
+    finally:
+        if wdir:
+            shutil.rmtree(wdir, ignore_errors=True)
 
 
 def make_trace_hdd(tid, rng, nops=30, **opt):
